@@ -209,31 +209,57 @@ def all_rule(ctx, report, facts, config, rule="C07.ALL"):
                   site=b.loc(), config=config)
 
 
+def _every_return(ctx, facts, b, pred):
+    """pred(ev, returned term) on every returning path of `b` (at least one)."""
+    ev, ends = Q.sem(ctx, facts, b)
+    rs = Q.returns(ends)
+    return bool(rs) and all(pred(ev, e.ret) for e in rs), [e.ret for e in rs]
+
+
 def wire(ctx, report, facts, config, rule="C07.WIRE"):
-    prog = ctx.program(facts)
     b = facts.one(name="new", self_head=A.BACC, container="inherent")
-    ret = prog.bt(b).local(0)
-    ok = ret[0] == "agg" and ret[2] == A.BACC + "::BatchAccessor" and dict(zip(ret[4], ret[3])) == {"reads": ("param", 1), "writes": ("param", 2)}
-    report.ob(rule, "BatchAccessor::new", ok, "BatchAccessor { reads, writes }" if ok else "BatchAccessor::new crosses its arguments: %s" % (ret,), site=b.loc(), config=config)
+    ok, rets = _every_return(ctx, facts, b, lambda ev, r: Q.record(ev, r, A.BACC + "::BatchAccessor") == {"reads": ("param", 1), "writes": ("param", 2)})
+    report.ob(rule, "BatchAccessor::new", ok, "BatchAccessor { reads, writes }" if ok else "BatchAccessor::new crosses its arguments: %s" % (rets,), site=b.loc(), config=config)
     for m in ("reads", "writes"):
         b = facts.one(name=m, trait=A.T_ACCESSOR, self_head=A.BACC)
-        bt = prog.bt(b)
-        ret = bt.local(0)
-        ok = ret[0] == "call" and bt.callee(ret[1]).name == "clone" and ret[2] == (("field", ("param", 1), m, A.BACC),)
-        report.ob(rule, "BatchAccessor::%s" % m, ok, "self.%s.clone()" % m if ok else "BatchAccessor::%s returns %s" % (m, ret), site=b.loc(), config=config)
+
+        def copies(ev, r, m=m):
+            # a copy of the member: clone / to_vec / to_owned / iter().cloned().collect() of self.<m>, nothing else
+            t = r
+            n = 0
+            while isinstance(t, tuple) and t and t[0] in ("call", "cast"):
+                if t[0] == "cast":
+                    t = t[2]
+                    continue
+                c = ev.callee(t[1])
+                if c is None or c.local or len(t[2]) != 1:
+                    return False
+                if c.name in ("clone", "to_vec", "to_owned", "cloned", "copied", "collect", "into_iter", "iter", "from", "into", "as_slice", "deref", "as_ref", "borrow"):
+                    n += c.name in ("clone", "to_vec", "to_owned", "cloned", "copied")
+                    t = t[2][0]
+                else:
+                    return False
+            f_, i_, base = Q.table_access(ev, t)
+            return n >= 1 and Q.crate_fields(f_) == [(A.BACC, m)] and not i_ and base == ("param", 1)
+        ok, rets = _every_return(ctx, facts, b, copies)
+        report.ob(rule, "BatchAccessor::%s" % m, ok, "a copy of self.%s" % m if ok else "BatchAccessor::%s returns %s" % (m, rets), site=b.loc(), config=config)
     b = facts.one(name="create", self_head=A.BCS, container="inherent")
-    ret = prog.bt(b).local(0)
-    ok = ret[0] == "agg" and ret[2] == A.BCS + "::BatchControllerSystem" and dict(zip(ret[4], ret[3])) == {"accessor": ("param", 1), "controller": ("param", 2), "dispatcher": ("param", 3)}
-    report.ob(rule, "BatchControllerSystem::create", ok, "BatchControllerSystem { accessor, controller, dispatcher }", site=b.loc(), config=config)
+    ok, rets = _every_return(ctx, facts, b, lambda ev, r: Q.record(ev, r, A.BCS + "::BatchControllerSystem") == {"accessor": ("param", 1), "controller": ("param", 2), "dispatcher": ("param", 3)})
+    report.ob(rule, "BatchControllerSystem::create", ok, "BatchControllerSystem { accessor, controller, dispatcher }" if ok else "create crosses its arguments: %s" % (rets,), site=b.loc(), config=config)
     b = facts.one(name="accessor", trait=A.T_SYSTEM, self_head=A.BCS)
-    ret = prog.bt(b).local(0)
-    ok = ret[0] == "agg" and ret[2] == A.C + "::system::AccessorCow::Ref" and ret[3] == (("field", ("param", 1), "accessor", A.BCS),)
-    report.ob(rule, "BatchControllerSystem::accessor", ok, "AccessorCow::Ref(&self.accessor)" if ok else "the batch system does not report the union accessor: %s" % (ret,), site=b.loc(), config=config)
+
+    def is_ref(ev, r):
+        if not (r[0] == "agg" and r[2] == A.C + "::system::AccessorCow::Ref" and len(r[3]) == 1):
+            return False
+        f_, i_, base = Q.table_access(ev, r[3][0])
+        return Q.crate_fields(f_) == [(A.BCS, "accessor")] and not i_ and base == ("param", 1)
+    ok, rets = _every_return(ctx, facts, b, is_ref)
+    report.ob(rule, "BatchControllerSystem::accessor", ok, "AccessorCow::Ref(&self.accessor)" if ok else "the batch system does not report the union accessor: %s" % (rets,), site=b.loc(), config=config)
     # the batch system's data type fetches nothing
     b = facts.one(name="fetch", trait=A.T_DYNSYSDATA, self_head=A.BUW)
-    cs = [Callee(t["func"]).short() for bb, t in b.normal_calls()]
-    ret = prog.bt(b).local(0)
-    ok = not cs and ret[0] == "agg" and ret[3] == (("param", 2),)
+    ev, ends = Q.sem(ctx, facts, b)
+    cs = sorted(set(e[2].name for en in ends for e in Q.calls_in(en.path.events, lambda c: True, deep=True)))
+    ok = not cs and bool(Q.returns(ends)) and all(e.ret[0] == "agg" and e.ret[3] == (("param", 2),) for e in Q.returns(ends))
     report.ob("C07.NOFETCH", "BatchUncheckedWorld::fetch", ok, "wraps the world reference, borrows nothing" if ok else "BatchUncheckedWorld::fetch calls %s" % cs, site=b.loc(), config=config)
     sd = [im for im in facts.impls if im.get("trait") == A.T_SYSTEM and im.get("self_head") == A.BCS]
     report.ob("C07.NOFETCH", "BatchControllerSystem::SystemData", len(sd) == 1, "one System impl for the batch wrapper", config=config)
